@@ -31,6 +31,7 @@ type ssCtx struct {
 func (c *ssCtx) MetadataMatchCriteria() api.MetadataMatchCriteria { return c.mmc }
 
 var ssKeys = []string{"k1", "k2", "k3", "k9"} // k9: never on a host unless generated as "unknown"
+var ssDeepKeys = []string{"k1", "k2", "k3", "k4", "k5", "k6", "k7", "k8"}
 var ssVals = []string{"a", "b", "c", "z"}
 
 func ssKeyNo(k string) int { return int(k[1] - '0') }
@@ -59,7 +60,7 @@ func coqPath(m map[string]string) string {
 func c15(args []string) int {
 	run := NewRun("C15", args)
 	r := run.R
-	run.Sum.Rule = "configurations: host sets of 0..7 hosts with partial, overlapping metadata over keys {k1,k2,k3} x values {a,b,c} (same values under different keys on purpose), some hosts unhealthy; selector lists incl. nested, duplicate, unsorted and EMPTY key sets, and (45 %) a pair of selectors one of whose sorted key lists is a prefix / suffix / subset of the other's, in both orders; the three fallback policies; default subsets (empty, matching, non-matching). queries per configuration: nil criteria, empty criteria, every selector instantiated from a host (hit), with one value changed, strict subsets and supersets of selectors, unknown keys and values. A configuration is non-trivial when it has >= 2 hosts and >= 1 selector; distinct by (hosts, selectors, policy, default). criteria: histories of 2-6 requests through one real route rule (metadata_match of 0-2 pairs), ~55 % of the requests with dynamic metadata, real downStream.MetadataMatchCriteria, then the real subset balancer; non-trivial when the route has metadata_match and some request carries metadata."
+	run.Sum.Rule = "configurations: host sets of 0..7 hosts with partial, overlapping metadata over keys {k1,k2,k3} x values {a,b,c} (same values under different keys on purpose), some hosts unhealthy; selector lists incl. nested, duplicate, unsorted and EMPTY key sets, selectors of 4..8 keys (scripted depths 4, 5, 6, 8 first, then ~12 %) over hosts agreeing on the first three keys with 2-3 values per late key, and (45 %) a pair of selectors one of whose sorted key lists is a prefix / suffix / subset of the other's, in both orders; the three fallback policies; default subsets (empty, matching, non-matching). queries per configuration: nil criteria, empty criteria, every selector instantiated from a host (hit), with one value changed, strict subsets and supersets of selectors, unknown keys and values. A configuration is non-trivial when it has >= 2 hosts and >= 1 selector; distinct by (hosts, selectors, policy, default). criteria: histories of 2-6 requests through one real route rule (metadata_match of 0-2 pairs), ~55 % of the requests with dynamic metadata, real downStream.MetadataMatchCriteria, then the real subset balancer; non-trivial when the route has metadata_match and some request carries metadata."
 	header := "From MV Require Import Gen.SubsetTokens Model.Subset.\nFrom Coq Require Import List Arith.\nImport ListNotations.\n"
 	sh := run.NewShard(header, "ss_case", "ss_mismatches fh_mode")
 	hostSeq := 0
@@ -69,6 +70,17 @@ func c15(args []string) int {
 		n := r.Intn(8)
 		if ci < 8 {
 			n = ci % 4
+		}
+		// deep configurations: selectors of 4..8 keys (k1..k8) over hosts that agree on the first keys and differ on the
+		// late ones (several values per late key); scripted depths 4, 5, 6, 8 first
+		deep, depth := false, 0
+		if ci >= 8 && ci < 16 {
+			deep, depth = true, []int{4, 5, 6, 8, 4, 5, 7, 8}[ci-8]
+		} else if ci >= 16 && r.Pct(12) {
+			deep, depth = true, 4+r.Intn(5)
+		}
+		if deep {
+			n = 3 + r.Intn(5)
 		}
 		metas := make([]map[string]string, n)
 		healthy := make([]bool, n)
@@ -83,6 +95,18 @@ func c15(args []string) int {
 				}
 				if r.Pct(p) {
 					m[k] = ssVals[r.Intn(3)]
+				}
+			}
+			if deep {
+				for j, k := range ssDeepKeys[:depth] {
+					switch {
+					case j < 3:
+						m[k] = "a" // all hosts agree on the first three keys
+					case r.Pct(90):
+						m[k] = ssVals[r.Intn(2+j%2)] // 2-3 values per late key
+					default:
+						delete(m, k)
+					}
 				}
 			}
 			metas[i] = m
@@ -112,6 +136,17 @@ func c15(args []string) int {
 				}
 			}
 			selectors = append(selectors, s)
+		}
+		if deep {
+			full := append([]string{}, ssDeepKeys[:depth]...)
+			selectors = append(selectors, full)
+			if r.Bool() && depth > 4 {
+				selectors = append(selectors, append([]string{}, ssDeepKeys[:4]...))
+			}
+			if r.Bool() {
+				selectors = append(selectors, append([]string{}, ssDeepKeys[1:depth]...))
+			}
+			run.Sum.Distribution[fmt.Sprintf("config:deep-selector-%d-keys", depth)]++
 		}
 		// selectors whose sorted keys are a prefix / suffix / subset of another selector's, in both orders
 		if r.Pct(45) {
